@@ -187,7 +187,8 @@ def fam_shr(k):
 
 def fam_slice_hi(k):
     n = pow2(k)
-    return {"main.asm": "#d8 (0xab[%d:0])[7:0]\n" % n}, ("either", "%02x" % (0xab & ((1 << (n + 1)) - 1) & 0xff))
+    # (closed form: never build a 2^k-bit mask here - for k in the thirties that is gigabytes of Python integer)
+    return {"main.asm": "#d8 (0xab[%d:0])[7:0]\n" % n}, ("either", "%02x" % (0xab if n >= 7 else 0xab & ((1 << (n + 1)) - 1)))
 
 
 def fam_slice_both(k):
